@@ -126,7 +126,7 @@ PLAN["C15"] = dict(
                 "dangling ids) is preserved by add_edge and remove_edge, with whole-view postconditions (the adjacency changes by exactly "
                 "that link at both ends, self-links included, node set unchanged); histories follow by induction over operations. "
                 "(2) find_component returns a set that contains the start node, is closed under adjacency, is disjoint from everything visited "
-                "before, and lies inside one class of EVERY equivalence relation that contains the links (R is uninterpreted: hence inside the "
+                "before, and lies inside one class of EVERY equivalence relation that contains the links (uninterpreted labelling comp, constant along links: hence inside the "
                 "true component); closed + inside = exactly the component. (3) all_components: the returned sets cover the node set (ghost map "
                 "comp_of), are pairwise disjoint, each closed under adjacency and inside one class of every link-closed equivalence, and the "
                 "visited flags are reset. (4) dfs: the returned list starts at the start node, has no repeated node, is closed under adjacency and "
